@@ -115,7 +115,7 @@ def new_branch(path, fmt):
 
 # ---- observing --------------------------------------------------------------------
 
-def observe(path, revids, strict):
+def observe(path, revids, strict, also=()):
     """Everything the property says is preserved, read through fresh objects."""
     from breezy.controldir import ControlDir
     cd = ControlDir.open(path)
@@ -132,7 +132,7 @@ def observe(path, revids, strict):
     # every revision in a repository reachable from the location: the branch's repository, the
     # location's own / containing one, and the shared one above it
     revs = {}
-    for r in reachable_repositories(cd, br):
+    for r in reachable_repositories(cd, br, also):
         with r.lock_read():
             for rid in r.all_revision_ids():
                 if rid not in revs:
@@ -147,13 +147,17 @@ def observe(path, revids, strict):
     return o
 
 
-def reachable_repositories(cd, br):
+def reachable_repositories(cd, br, also=()):
+    """The branch's repository, the location's own / containing one, the shared one above it and
+    those of the given related locations (the master the location is bound / refers to)."""
     from breezy import errors
     from breezy.controldir import ControlDir
     out = [br.repository]
     seen = {br.repository.user_url}
-    for find in (cd.find_repository,
-                 lambda: ControlDir.open_containing_from_transport(cd.root_transport.clone(".."))[0].find_repository()):
+    finders = [cd.find_repository,
+               lambda: ControlDir.open_containing_from_transport(cd.root_transport.clone(".."))[0].find_repository()]
+    finders += [(lambda p=p: ControlDir.open(p).find_repository()) for p in also]
+    for find in finders:
         try:
             r = find()
         except (errors.NoRepositoryPresent, errors.NotBranchError):
@@ -425,11 +429,11 @@ def reconfigure_case(fmt, start, pending, path_ops, acc, extras=False):
                     tree.set_parent_ids([tip, b"s-merge"])
         revids = [gen.revid(i) for i in range(len(RDAG))]
         strict = True
-        first = observe(loc, revids, strict)
+        first = observe(loc, revids, strict, also=[master])
         lay = layout_of(loc)
         acc.states.add((lay, pending))
         for k, op in enumerate(path_ops):
-            before = observe(loc, revids, strict)
+            before = observe(loc, revids, strict, also=[master])
             acc.count("transitions_run")
             try:
                 apply_op(op, loc, master)
@@ -441,7 +445,7 @@ def reconfigure_case(fmt, start, pending, path_ops, acc, extras=False):
                               dict(detail, failing_step=k, error=str(e)[:200], layout_before=list(lay)))
                 return
             try:
-                after = observe(loc, revids, strict)
+                after = observe(loc, revids, strict, also=[master])
                 nlay = layout_of(loc)
             except Exception as e:  # noqa
                 acc.violation("reconfigure:%s:location-unreadable-afterwards:%s" % (op, type(e).__name__),
